@@ -204,9 +204,11 @@ package sbom
 //@   assigns \nothing
 
 //@ func NodeList.indexNodes
-//@   props C11
+//@   props C11, C08
 //@   inline
 //@   assigns \nothing
+//@   ensures [C08:indexNodes:keys] result != nil && fresh(result) && (forall k string :: (k in result) <==> (k in fieldset(nl.Nodes, Id)))
+//@   invariant L0: ret != nil && fresh(ret) && (forall k string :: (k in ret) <==> (k in fieldsetn(nl.Nodes, Id, _i)))
 
 //@ func NodeList.indexEdges
 //@   props C11, C04, C08
@@ -337,6 +339,7 @@ package sbom
 //@   ensures [C14:diffDates:countIff] count == (sameSecond(dt1, dt2) ? 0 : 1)
 
 // element identity of nested messages is their flattened string (pure methods)
+//@ fieldset-of sbom.Node: Id
 //@ imageset-of sbom.Person: flatString
 //@ imageset-of sbom.ExternalReference: flatString
 
@@ -400,6 +403,24 @@ package sbom
 //@   invariant L3: fresh(arr(newEdges)) && (forall e *Edge :: (e in elems(newEdges)) ==> fresh(e) && (arr(e.To) == nil || fresh(arr(e.To)))) && (forall k string :: (k in seenCache) ==> seenCache[k] != nil && fresh(seenCache[k]) && (arr(seenCache[k].To) == nil || fresh(arr(seenCache[k].To))))
 //@   invariant L0: forall k string :: (k in seenCache) ==> seenCache[k] != nil && fresh(seenCache[k]) && (arr(seenCache[k].To) == nil || fresh(arr(seenCache[k].To)))
 //@   invariant L1: forall k string :: (k in seenCache) ==> seenCache[k] != nil && fresh(seenCache[k]) && (arr(seenCache[k].To) == nil || fresh(arr(seenCache[k].To)))
+
+// C08: well-formedness of the graph (closedness part)
+//@ pred closedRoots(nl *NodeList) = forall r string :: (r in elems(nl.RootElements)) ==> (r in fieldset(nl.Nodes, Id))
+//@ pred closedEdges(nl *NodeList) = forall e *Edge :: (e in elems(nl.Edges)) ==> (e.From in fieldset(nl.Nodes, Id)) && (forall t string :: (t in elems(e.To)) ==> (t in fieldset(nl.Nodes, Id)))
+
+//@ func NodeList.RemoveNodes
+//@   props C04, C08
+//@   requires validNL(nl) && closedRoots(nl)
+//@   assigns nl.Nodes, nl.Edges, nl.RootElements
+//@   ensures [validNL] validNL(nl)
+//@   ensures [C08:remove:exactly] forall x string :: (x in fieldset(nl.Nodes, Id)) <==> ((x in old(fieldset(nl.Nodes, Id))) && !(x in elems(ids)))
+//@   ensures [C08:remove:rootsClosed] closedRoots(nl)
+//@   invariant L0: forall x string :: (x in idDict) <==> (x in elemsn(ids, _i))
+//@   invariant L1: forall x string :: (x in idDict) <==> (x in elems(ids))
+//@   invariant L1: !(nil in elems(newNodeList))
+//@   invariant L1: forall y string :: (y in fieldset(newNodeList, Id)) <==> ((y in fieldsetn(nl.Nodes, Id, _i)) && !(y in elems(ids)))
+//@   invariant L2: (forall x string :: (x in idDict) <==> (x in elems(ids))) && !(nil in elems(newNodeList)) && (forall y string :: (y in fieldset(newNodeList, Id)) <==> ((y in fieldset(nl.Nodes, Id)) && !(y in elems(ids))))
+//@   invariant L2: forall r string :: (r in elems(newRootElements)) ==> ((r in elems(nl.RootElements)) && !(r in elems(ids)))
 
 //@ func NodeList.Add
 //@   props C04, C08
